@@ -207,14 +207,41 @@ func Register[C any](name string, run func(C) Result) {
 	}
 }
 
+var (
+	journalMu   sync.Mutex
+	journalFile *os.File
+	journalLen  int
+)
+
+// journal records the case about to run, so that a process killed by a panic
+// in a library goroutine still leaves a replayable case behind.  The file is
+// kept open and overwritten in place (one or two syscalls per case).
 func journal(test string, js []byte) {
 	path := os.Getenv("VERIF_JOURNAL")
 	if path == "" {
 		return
 	}
-	wrapped, _ := json.Marshal(map[string]any{"test": test, "case": json.RawMessage(js)})
-	// overwrite: only the last case matters (the one in flight when the process dies)
-	_ = os.WriteFile(path, wrapped, 0o644)
+	buf := make([]byte, 0, len(js)+len(test)+24)
+	buf = append(buf, `{"test":`...)
+	q, _ := json.Marshal(test)
+	buf = append(buf, q...)
+	buf = append(buf, `,"case":`...)
+	buf = append(buf, js...)
+	buf = append(buf, '}')
+	journalMu.Lock()
+	defer journalMu.Unlock()
+	if journalFile == nil {
+		f, err := os.OpenFile(path, os.O_CREATE|os.O_WRONLY|os.O_TRUNC, 0o644)
+		if err != nil {
+			return
+		}
+		journalFile = f
+	}
+	journalFile.WriteAt(buf, 0)
+	if len(buf) < journalLen {
+		journalFile.Truncate(int64(len(buf)))
+	}
+	journalLen = len(buf)
 }
 
 func faillog(test string, js []byte, err error) {
